@@ -139,6 +139,12 @@ def lexically_locked(f: FuncInfo, node: ast.AST, locks: Set[str]) -> Optional[st
 
 # ---- call graph --------------------------------------------------------------------------------------
 
+_OPERATOR_METHODS = {
+    ast.BitAnd: ("__and__", "__rand__", "__iand__"), ast.BitOr: ("__or__", "__ror__", "__ior__"),
+    ast.BitXor: ("__xor__", "__rxor__", "__ixor__"),
+}
+
+
 class Edge:
     __slots__ = ("caller", "call", "callee", "kind", "lock")
 
@@ -328,6 +334,22 @@ class CallGraph:
                 e = Edge(f, sub, g, kind, lock)
                 lst.append(e)
                 self.inc.setdefault(g.ref, []).append(e)
+        # binary / augmented / unary operators on the library's own objects run the operator methods (round 8: a memo
+        # inside Options.__and__ was out of reach of every entry because `a & b` was no edge); resolved by name over
+        # every class of the repo that defines the method - an over-approximation, as for ambiguous method calls
+        for sub in body_nodes:
+            names = ()
+            if isinstance(sub, (ast.BinOp, ast.AugAssign)):
+                names = _OPERATOR_METHODS.get(type(sub.op), ())
+            elif isinstance(sub, ast.UnaryOp) and isinstance(sub.op, ast.Invert):
+                names = ("__invert__",)
+            for nm in names:
+                for g in self.methods.get(nm, []):
+                    if any(k.name == "type" or "type" in [b.split(".")[-1] for b in k.base_names] for k in self.h.up(g.cls)):
+                        continue    # operators of metaclasses combine *types* (declaration time), not run-time objects
+                    e = Edge(f, None, g, "call", lexically_locked(f, sub, self.locks) if self.locks else None)
+                    lst.append(e)
+                    self.inc.setdefault(g.ref, []).append(e)
         # reading `self.<name>` where <name> is a property / cached_property of the hierarchy runs that getter
         c0 = class_of(f)
         if c0 is not None:
